@@ -362,11 +362,23 @@ def status_array_shape(ctx, rule='A5s'):
     stores = [s for s in walk_fn(fn) if isinstance(s, ast.Assign) and isinstance(s.targets[0], ast.Subscript)
               and norm(s.targets[0].value) == 'status_array']
     def find(idx_pred, val):
-        return [s for s in stores if idx_pred(norm(s.targets[0].slice)) and norm(s.value) == val]
-    a = find(lambda i: i == 'i_choice_apply', 'Diag.CHOICE_MADE.value')
-    b = find(lambda i: i == 'i_opt_apply', 'Diag.CONFIRMED.value')
-    c = find(lambda i: 'confirmation' in i and 'not_confirmed_mask' in i, 'Diag.CONFIRMED.value')
-    d = find(lambda i: 'removal' in i and 'not_confirmed_mask' in i, 'Diag.REMOVED.value')
+        return [s for s in stores if idx_pred(norm(s.targets[0].slice), s.targets[0].slice) and norm(s.value) == val]
+
+    def undecided_and(kind):
+        # the index is `<influence of that kind> & <mask of nodes whose status is still INITIAL>` (hoisted locals are
+        # read through)
+        def pred(txt_, e):
+            x = expand_locals(fn, e)
+            if not (isinstance(x, ast.BinOp) and isinstance(x.op, ast.BitAnd)):
+                return False
+            sides = [norm(x.left), norm(x.right)]
+            return any(f'OffDiag.{kind}' in t_ for t_ in sides) and \
+                any('Diag.INITIAL' in t_ and 'OffDiag' not in t_ for t_ in sides)
+        return pred
+    a = find(lambda i, e: i == 'i_choice_apply', 'Diag.CHOICE_MADE.value')
+    b = find(lambda i, e: i == 'i_opt_apply', 'Diag.CONFIRMED.value')
+    c = find(undecided_and('CONFIRMATION'), 'Diag.CONFIRMED.value')
+    d = find(undecided_and('REMOVAL'), 'Diag.REMOVED.value')
     for nm, hit, desc in (('choice-made', a, 'the applied choice is marked CHOICE_MADE'),
                           ('option-confirmed', b, 'the selected option is marked CONFIRMED'),
                           ('confirm-undecided-only', c, 'confirmation influences only touch nodes that are still '
